@@ -309,7 +309,7 @@ static void run_case(char* line) {
   int hi = 39, i, fd, loop_ready = 0;
   int nullfd;
 
-  alarm(25);
+  alarm(8);
   resfd = fcntl(1, F_DUPFD_CLOEXEC, 250);
   for (fd = 3; fd < 1024; fd++) if (fd != resfd) close(fd);
   snprintf(w_dir, sizeof w_dir, "%s/w%d", g_dir, (int) getpid());
